@@ -153,18 +153,20 @@ impl Check for C04 {
 
     fn budget(&self, tier: &str) -> u64 { if tier == "thorough" { 40_000 } else { 3_000 } }
 
-    fn generate(&self, seed: u64, _tier: &str, env: &Env) -> Trace {
+    fn generate(&self, seed: u64, tier: &str, env: &Env) -> Trace {
         let mut r = Rng::new(seed);
+        // thorough tier: half of the runs are three times as long (deeper histories)
+        let dm: u64 = if tier == "thorough" && seed % 2 == 0 { 3 } else { 1 };
         let g = RawGen::new(&env.data);
         let faults = !r.chance(1, 4); // a quarter of the runs are fault-free (no unwinds, no clock failure)
-        let k = 1 + r.below(4) as u8;
+        let k = 1 + r.below(if dm > 1 { 6 } else { 4 }) as u8;
         let mut t = base_instant(&mut r, &env.host_rule);
         let mut events = Vec::new();
         let mut rule_counter = 0u32;
         let mut probe_counter = 0u32;
         // per client: (is_session, lang, remaining steps, has_session, probes)
         struct Cl { session: bool, lang: String, steps: u64, live: bool, probes: Vec<(u32, f64)> }
-        let mut cls: Vec<Cl> = (0..k).map(|_| Cl { session: r.chance(3, 5), lang: r.pick(LANGS).to_string(), steps: 2 + r.below(10), live: false, probes: vec![] }).collect();
+        let mut cls: Vec<Cl> = (0..k).map(|_| Cl { session: r.chance(3, 5), lang: r.pick(LANGS).to_string(), steps: (2 + r.below(10)) * dm, live: false, probes: vec![] }).collect();
         let admin_w = *r.pick(&[0u32, 1, 2, 4]);
         let max_lines = *r.pick(&[2u64, 4, 8]);
         let mut dec = ",".to_string();
